@@ -2,13 +2,17 @@ import EpdVerif.Props.C07
 import EpdVerif.Props.C06Win
 import EpdVerif.Drivers.Epd2in7
 import EpdVerif.Drivers.Epd4in2
+import EpdVerif.Drivers.Epd1in54
+import EpdVerif.Drivers.Epd2in9
 /-!
 # C07 per panel: `clear_frame` for EVERY background colour from ANY controller state (session 4)
 
 `uc_two_fills`: two complete fills outside partial mode leave both planes uniform, each written by
 exactly one block of the plane's size, whatever the planes held before (from `dtm_full`).
 Per panel the program's block list is obtained for a symbolic driver state (`rfl`), so the
-statement holds for every background colour, not for the sampled ones: epd2in7, epd4in2.
+statement holds for every background colour, not for the sampled ones: epd2in7, epd4in2 (UC81xx)
+and — from ANY awake controller state in data-entry mode 3, whatever window and counters an earlier
+partial update left — epd1in54, epd2in9 (SSD16xx, `ssd_window_then_fill`).
 The drivers with listed C07 findings cannot have such a theorem; the remaining drivers are
 decided by the oracle on every colour × history class.
 -/
@@ -110,4 +114,119 @@ theorem epd4in2_clear_uniform (f : Feat) (d : DState) (u : Uc) (hu : u.asleep = 
 /-- non-vacuity: the controller as constructed meets the hypotheses -/
 example : (Uc.por 400 300 1 9 false).asleep = false ∧ (Uc.por 400 300 1 9 false).partialOn = false ∧
     (Uc.por 400 300 1 9 false).p1.size = 15000 := by decide +kernel
+/-! ## SSD16xx -/
+
+/-- SSD16xx (byte-unit X): window + counter blocks, then a fill of exactly the window's size, from ANY
+    awake state in data-entry mode 3: every cell of the window holds the fill value, the RED plane and
+    everything outside the window are unchanged, one episode with `count = stored = size` -/
+theorem ssd_window_then_fill (s : Ssd) (a b c c' d d' : UInt8) (v : UInt8) (n : Nat)
+    (hu : s.asleep = false) (hxp : s.xPix = false) (h3 : s.entry = 3)
+    (hbw : s.bw.size = s.stride * s.rows) (hred : s.red.size = s.stride * s.rows)
+    (hx : a.toNat % 64 ≤ b.toNat % 64) (hy : Ssd.word c c' % 1024 ≤ Ssd.word d d' % 1024)
+    (hs : b.toNat % 64 < s.stride) (hr : Ssd.word d d' % 1024 < s.rows)
+    (hn : n = (b.toNat % 64 - a.toNat % 64 + 1) * (Ssd.word d d' % 1024 - Ssd.word c c' % 1024 + 1))
+    (s' : Ssd) (hs' : s' = s.run [Blk.c 0x44 [a, b], .c 0x45 [c, c', d, d'], .c 0x4E [a], .c 0x4F [c, c'], .c 0x24 (List.replicate n v)]) :
+    (∀ k, k < n → s'.bw[(Ssd.word c c' % 1024 + k / (b.toNat % 64 - a.toNat % 64 + 1)) * s.stride
+        + (a.toNat % 64 + k % (b.toNat % 64 - a.toNat % 64 + 1))]? = some v) ∧
+    s'.red = s.red ∧
+    (s'.epis.head?.map fun e => (e.plane, e.count, e.stored)) = some (0, n, n) := by
+  have q := C06.ssd_addr_seq s a b c c' d d' hu hxp
+  simp only [] at q
+  generalize hs1 : s.run [Blk.c 0x44 [a, b], .c 0x45 [c, c', d, d'], .c 0x4E [a], .c 0x4F [c, c']] = s1 at q
+  obtain ⟨qxs, qxe, qys, qye, qcx, qcy, qa, qe, qst, qro, qbw, qred, qep⟩ := q
+  have es' : s' = s1.feed (.c 0x24 (List.replicate n v)) := by
+    rw [hs', ← hs1]
+    simp only [Ssd.run, List.foldl]
+  have key := C06.ssd_partial_window s1 (List.replicate n v) qa (by rw [qe, h3]) (by rw [qxs, qxe]; exact hx)
+    (by rw [qys, qye]; exact hy) (by rw [qxe, qst]; exact hs) (by rw [qye, qro]; exact hr)
+    (by rw [qbw, qst, qro]; exact hbw) (by rw [qred, qst, qro]; exact hred) (by rw [qcx, qxs]) (by rw [qcy, qys])
+    (by rw [qxe, qxs, qye, qys, List.length_replicate]; exact hn)
+  rw [qxe, qxs, qys, qst, qred, qye] at key
+  rw [es']
+  refine ⟨?_, key.2.2.1, ?_⟩
+  · intro k hk
+    have := key.1 k (by rw [List.length_replicate]; exact hk)
+    rw [this]
+    simp
+  · rw [key.2.2.2]
+    simp
+
+open Drivers.Epd1in54 in
+theorem epd1in54_clear_blocks (f : Feat) (d : DState) :
+    blocksOf ((prog f d .clear).getD []) =
+      [.c 0x44 [shr8 0 3, shr8 (Gen.Epd1in54.WIDTH - 1) 3],
+       .c 0x45 [u8 0, shr8 0 8, u8 (Gen.Epd1in54.HEIGHT - 1), shr8 (Gen.Epd1in54.HEIGHT - 1) 8],
+       .c 0x4E [shr8 0 3], .c 0x4F [u8 0, shr8 0 8],
+       .c 0x24 (List.replicate (Gen.Epd1in54.WIDTH / 8 * Gen.Epd1in54.HEIGHT) (byteValue d.bg) ++ [])] := rfl
+
+open Drivers.Epd1in54 in
+/-- **epd1in54 `clear_frame`, every background colour, ANY awake controller state in data-entry mode 3**
+    (any window / counters left by a partial update, any RAM): the 25 x 200-byte panel area of the B/W
+    RAM ends equal to the colour's byte value, written exactly once; the other plane is untouched -/
+theorem epd1in54_clear_uniform (f : Feat) (d : DState) (s : Ssd) (hu : s.asleep = false) (hxp : s.xPix = false)
+    (h3 : s.entry = 3) (hst : s.stride = 30) (hro : s.rows = 320) (hbw : s.bw.size = 30 * 320) (hred : s.red.size = 30 * 320) :
+    let s' := s.run (blocksOf ((prog f d .clear).getD []))
+    (∀ k, k < 5000 → s'.bw[(k / 25) * 30 + k % 25]? = some (byteValue d.bg)) ∧ s'.red = s.red ∧
+    (s'.epis.head?.map fun e => (e.plane, e.count, e.stored)) = some (0, 5000, 5000) := by
+  intro s'
+  have e : Gen.Epd1in54.WIDTH / 8 * Gen.Epd1in54.HEIGHT = 5000 := by decide
+  have hs' : s' = s.run [Blk.c 0x44 [shr8 0 3, shr8 (Gen.Epd1in54.WIDTH - 1) 3],
+       .c 0x45 [u8 0, shr8 0 8, u8 (Gen.Epd1in54.HEIGHT - 1), shr8 (Gen.Epd1in54.HEIGHT - 1) 8],
+       .c 0x4E [shr8 0 3], .c 0x4F [u8 0, shr8 0 8], .c 0x24 (List.replicate 5000 (byteValue d.bg))] := by
+    show s.run _ = _
+    rw [epd1in54_clear_blocks, List.append_nil, e]
+  have a1 : (shr8 0 3).toNat % 64 = 0 := by decide
+  have a2 : (shr8 (Gen.Epd1in54.WIDTH - 1) 3).toNat % 64 = 24 := by decide
+  have a3 : Ssd.word (u8 0) (shr8 0 8) % 1024 = 0 := by decide
+  have a4 : Ssd.word (u8 (Gen.Epd1in54.HEIGHT - 1)) (shr8 (Gen.Epd1in54.HEIGHT - 1) 8) % 1024 = 199 := by decide
+  have k := ssd_window_then_fill s (shr8 0 3) (shr8 (Gen.Epd1in54.WIDTH - 1) 3) (u8 0) (shr8 0 8)
+    (u8 (Gen.Epd1in54.HEIGHT - 1)) (shr8 (Gen.Epd1in54.HEIGHT - 1) 8) (byteValue d.bg) 5000 hu hxp h3
+    (by rw [hst, hro]; exact hbw) (by rw [hst, hro]; exact hred) (by rw [a1, a2]; omega) (by rw [a3, a4]; omega)
+    (by rw [a2, hst]; omega) (by rw [a4, hro]; omega) (by rw [a1, a2, a3, a4]) s' hs'
+  rw [a1, a2, a3, hst] at k
+  refine ⟨fun k' hk' => ?_, k.2.1, k.2.2⟩
+  have := k.1 k' hk'
+  have e1 : 24 - 0 + 1 = 25 := rfl
+  rw [e1, Nat.zero_add, Nat.zero_add] at this
+  exact this
+open Drivers.Epd2in9 in
+theorem epd2in9_clear_blocks (f : Feat) (d : DState) :
+    blocksOf ((prog f d .clear).getD []) =
+      [.c 0x44 [shr8 0 3, shr8 (Gen.Epd2in9.WIDTH - 1) 3],
+       .c 0x45 [u8 0, shr8 0 8, u8 (Gen.Epd2in9.HEIGHT - 1), shr8 (Gen.Epd2in9.HEIGHT - 1) 8],
+       .c 0x4E [shr8 0 3], .c 0x4F [u8 0, shr8 0 8],
+       .c 0x24 (List.replicate (Gen.Epd2in9.WIDTH / 8 * Gen.Epd2in9.HEIGHT) (byteValue d.bg) ++ [])] := rfl
+
+open Drivers.Epd2in9 in
+/-- **epd2in9 `clear_frame`, every background colour, ANY awake controller state in data-entry mode 3**
+    (any window / counters left by a partial update, any RAM): the 16 x 296-byte panel area of the B/W
+    RAM ends equal to the colour's byte value, written exactly once; the other plane is untouched -/
+theorem epd2in9_clear_uniform (f : Feat) (d : DState) (s : Ssd) (hu : s.asleep = false) (hxp : s.xPix = false)
+    (h3 : s.entry = 3) (hst : s.stride = 30) (hro : s.rows = 320) (hbw : s.bw.size = 30 * 320) (hred : s.red.size = 30 * 320) :
+    let s' := s.run (blocksOf ((prog f d .clear).getD []))
+    (∀ k, k < 4736 → s'.bw[(k / 16) * 30 + k % 16]? = some (byteValue d.bg)) ∧ s'.red = s.red ∧
+    (s'.epis.head?.map fun e => (e.plane, e.count, e.stored)) = some (0, 4736, 4736) := by
+  intro s'
+  have e : Gen.Epd2in9.WIDTH / 8 * Gen.Epd2in9.HEIGHT = 4736 := by decide
+  have hs' : s' = s.run [Blk.c 0x44 [shr8 0 3, shr8 (Gen.Epd2in9.WIDTH - 1) 3],
+       .c 0x45 [u8 0, shr8 0 8, u8 (Gen.Epd2in9.HEIGHT - 1), shr8 (Gen.Epd2in9.HEIGHT - 1) 8],
+       .c 0x4E [shr8 0 3], .c 0x4F [u8 0, shr8 0 8], .c 0x24 (List.replicate 4736 (byteValue d.bg))] := by
+    show s.run _ = _
+    rw [epd2in9_clear_blocks, List.append_nil, e]
+  have a1 : (shr8 0 3).toNat % 64 = 0 := by decide
+  have a2 : (shr8 (Gen.Epd2in9.WIDTH - 1) 3).toNat % 64 = 15 := by decide
+  have a3 : Ssd.word (u8 0) (shr8 0 8) % 1024 = 0 := by decide
+  have a4 : Ssd.word (u8 (Gen.Epd2in9.HEIGHT - 1)) (shr8 (Gen.Epd2in9.HEIGHT - 1) 8) % 1024 = 295 := by decide
+  have k := ssd_window_then_fill s (shr8 0 3) (shr8 (Gen.Epd2in9.WIDTH - 1) 3) (u8 0) (shr8 0 8)
+    (u8 (Gen.Epd2in9.HEIGHT - 1)) (shr8 (Gen.Epd2in9.HEIGHT - 1) 8) (byteValue d.bg) 4736 hu hxp h3
+    (by rw [hst, hro]; exact hbw) (by rw [hst, hro]; exact hred) (by rw [a1, a2]; omega) (by rw [a3, a4]; omega)
+    (by rw [a2, hst]; omega) (by rw [a4, hro]; omega) (by rw [a1, a2, a3, a4]) s' hs'
+  rw [a1, a2, a3, hst] at k
+  refine ⟨fun k' hk' => ?_, k.2.1, k.2.2⟩
+  have := k.1 k' hk'
+  have e1 : 15 - 0 + 1 = 16 := rfl
+  rw [e1, Nat.zero_add, Nat.zero_add] at this
+  exact this
+
+
 end EpdVerif.Props.C07
